@@ -1,13 +1,76 @@
-(* Properties_C02.v — placeholder until NodeResumeProofs.v lands; see DESIGN.md 4 C02. *)
-From PD Require Import Base NodeModel NodeObs.
-Open Scope string_scope. Open Scope list_scope.
+(* Properties_C02.v — C02: a nodes Loader checkpoint at any item resumes the exact remaining stream.
+   Model: NodeModel.v.  Statements only; proofs in NodeResumeProofs.v.
+   [pipe_ok] only excludes batch_size 0 (which makes Batcher yield [] forever).
+   Every theorem is for ALL pipelines of the syntax (arbitrary nesting of IterableWrapper over plain
+   and Stateful iterables, SamplerWrapper, Mapper, ParallelMapper / Prefetcher [sequential
+   specification, any snapshot_frequency incl. 0], Batcher, Unbatcher, Filter), all sources (any
+   length incl. 0, items of any shape incl. INone), and every interruption point k. *)
+From PD Require Import Base NodeModel NodeResumeProofs.
+Open Scope string_scope. Open Scope list_scope. Open Scope nat_scope.
 
+(* node level: state after k items, loaded into a FRESH object, yields exactly the rest;
+   and taking the state disturbed nothing *)
+Theorem C02_node_resume_exact : forall p k, pipe_ok p = true -> k <= length (sem p 0) ->
+  let '(s, t') := node_state p (at_k p k) in
+  fst (node_run p (FUEL p) (node_reset p RUninit (Some s))) = skipn k (sem p 0)
+  /\ fst (node_run p (FUEL p) t') = skipn k (sem p 0).
+Proof. exact node_resume_exact. Qed.
+Print Assumptions C02_node_resume_exact.
+
+(* ... and the following epoch of the resumed object is the uninterrupted one *)
+Theorem C02_node_resume_next_epoch : forall p k, pipe_ok p = true -> k <= length (sem p 0) ->
+  let '(s, _) := node_state p (at_k p k) in
+  let t1 := snd (node_run p (FUEL p) (node_reset p RUninit (Some s))) in
+  fst (node_run p (FUEL p) (node_reset p t1 None)) = sem p 1.
+Proof. exact node_resume_next_epoch. Qed.
+Print Assumptions C02_node_resume_next_epoch.
+
+(* chains: [Reach p e k t] = t is reachable by ANY finite sequence of next / state_dict /
+   "load the current state into any object" / "drain and start the next epoch" steps; in every
+   such state the node is exactly at position k of epoch e of the reference semantics *)
+Theorem C02_reach_exact : forall p e k t, pipe_ok p = true -> Reach p e k t ->
+  k <= length (sem p e) /\
+  fst (node_next p t) = outc (nth_error (sem p e) k) /\
+  fst (node_run p (FUEL p) t) = skipn k (sem p e).
+Proof. exact reach_exact. Qed.
+Print Assumptions C02_reach_exact.
+
+Theorem C02_node_resume_chain : forall p k j, pipe_ok p = true -> k + j <= length (sem p 0) ->
+  let '(s, _) := node_state p (at_k p k) in
+  let t1 := nexts p j (node_reset p RUninit (Some s)) in
+  let '(s2, t2) := node_state p t1 in
+  fst (node_run p (FUEL p) (node_reset p RUninit (Some s2))) = skipn (k + j) (sem p 0)
+  /\ fst (node_run p (FUEL p) t2) = skipn (k + j) (sem p 0).
+Proof. exact node_resume_chain. Qed.
+Print Assumptions C02_node_resume_chain.
+
+(* Loader level (look-ahead cache, restart_on_stop_iteration): state_dict after k items of the
+   first epoch, loaded into a NEW Loader, then iter() and drain *)
+Theorem C02_loader_resume_mid : forall p k restart0 restart, pipe_ok p = true -> k < length (sem p 0) ->
+  ld_drain p (FUEL p) (ld_resumed p restart0 restart k) = (skipn k (sem p 0), true).
+Proof. exact loader_resume_mid. Qed.
+Print Assumptions C02_loader_resume_mid.
+
+Theorem C02_loader_resume_end_restart : forall p restart0, pipe_ok p = true ->
+  ld_drain p (FUEL p) (ld_resumed p restart0 true (length (sem p 0))) = (sem p 1, true).
+Proof. exact loader_resume_end_restart. Qed.
+Print Assumptions C02_loader_resume_end_restart.
+
+Theorem C02_loader_resume_end_norestart : forall p restart0, pipe_ok p = true ->
+  ld_drain p (FUEL p) (ld_resumed p restart0 false (length (sem p 0))) = ([], true).
+Proof. exact loader_resume_end_norestart. Qed.
+Print Assumptions C02_loader_resume_end_norestart.
+
+(* non-vacuity: a pipeline with every operator, at an interior k *)
+Example C02_nonvacuous :
+  let p := PFilter (QLt 9) (PUnbatch (PPrefetch 2 (PMap (FAdd 1) (PBatch 3 false (PParMap (FAdd 0) 1
+             (PSampler [map INat [0;1;2;3;4;5;6]; map INat [6;5;4;3;2;1;0]])))))) in
+  pipe_ok p = true /\ 3 <= length (sem p 0) /\ sem p 0 = map INat [1;2;3;4;5;6;7] /\
+  Reach p 0 0 (node_reset p RUninit None).
+Proof. cbv zeta. repeat split; try reflexivity; [vm_compute; lia | constructor]. Qed.
+
+(* regression for D2 (fixed by 8c3f339): an epoch whose next item is None resumes correctly *)
 Example C02_none_item_resumes :
   let p := PSrc [INat 1; INat 2; INone; INat 4; INat 5] false in
-  loader_obs p true [HIter; HNext; HNext; HState; HFresh; HLoad 0; HIter; HNext; HNext; HNext; HNext]
-  = OL [OS "iter"; OL [OS "item"; OZ 1]; OL [OS "item"; OZ 2];
-        OL [OS "state"; OL [OL [OS "num_yielded"; OZ 2]; OL [OS "root"; OL [OL [OS "_num_yielded"; OZ 2]]]]];
-        OS "fresh"; OS "load"; OS "iter"; OL [OS "item"; ON]; OL [OS "item"; OZ 4]; OL [OS "item"; OZ 5]; OS "stop"].
+  ld_drain p (FUEL p) (ld_resumed p true true 2) = ([INone; INat 4; INat 5], true).
 Proof. vm_compute. reflexivity. Qed.
-Theorem C02_placeholder : True. Proof. exact I. Qed.
-Print Assumptions C02_placeholder.
